@@ -92,7 +92,6 @@ theorem parseAmount_toks (a : Amount) (h : a.wf = true) (ln o pre : Nat) (x : To
       false_or, true_or, Bool.not_false, Bool.false_and, emptyCommodity, decide_true, decide_false, toRange,
       List.cons_ne_self, List.cons.injEq, Bool.true_and, Bool.and_true, Bool.or_true, Bool.true_or]
   all_goals
-    rw [hpos]
     simp [Amount.expected, Amount.signText, Amount.print, Amount.comText, hneg, hcom]
   all_goals omega
 
